@@ -170,7 +170,6 @@ class ToImageStack(Transform[Tree, npt.NDArray[np.uint8]]):
             Coordinates array of shape (3,).
         """
 
-        eps = 1e-6
         stride = self.resolution
         offset = offset or (stride / 2)
 
@@ -179,7 +178,7 @@ class ToImageStack(Transform[Tree, npt.NDArray[np.uint8]]):
         z = zmin
         while z < zmax:
             yield RangeSampler(
-                (xmin, ymin, z), (xmax, ymax, z + stride[2] - eps), _tp3f(stride)
+                (xmin, ymin, z), (xmax, ymax, z + stride[2] / 2), _tp3f(stride)
             )
             z += stride[2]
 
